@@ -62,6 +62,13 @@ Definition fle (a b : fl) : bool :=
   | _, _ => false
   end.
 
+(** IEEE [a < b]. *)
+Definition flt (a b : fl) : bool :=
+  match a, b with
+  | NaN, _ | _, NaN => false
+  | _, _ => negb (fle b a)
+  end.
+
 (** math.Min / math.Max with Go's documented special cases (in Go's order:
     the infinity case is tested before the NaN case). *)
 Definition fmin (a b : fl) : fl :=
